@@ -557,3 +557,95 @@ Proof.
     + apply (tleaves_spec (build es) [] k _ (tuniq_build es)). exists k, ps. rewrite tget_build. repeat split. exact Hg.
     + cbn [fst snd]. apply in_map. now apply sort_leaf_in.
 Qed.
+
+(* ------------------------------------------------------------------ "a re-inserted phrase replaces the earlier one" *)
+Lemma bytes_eqb_eq a b : bytes_eqb a b = true <-> a = b.
+Proof. unfold bytes_eqb. apply list_eqb_N_spec. Qed.
+
+Definition uniq_str (ps : list phrase) : Prop := NoDup (map p_str ps).
+
+Lemma insert_phrase_strs ps p : forall x, In x (map p_str (insert_phrase ps p)) <-> x = p_str p \/ In x (map p_str ps).
+Proof.
+  induction ps as [|y ps IH]; intros x; cbn [insert_phrase map In].
+  - split; [intros [H|[]]; now left | intros [H|[]]; now left].
+  - destruct (bytes_eqb (p_str y) (p_str p)) eqn:E; cbn [map In].
+    + apply bytes_eqb_eq in E. rewrite E. intuition (subst; auto).
+    + rewrite IH. intuition (subst; auto).
+Qed.
+
+Lemma insert_phrase_uniq ps p : uniq_str ps -> uniq_str (insert_phrase ps p).
+Proof.
+  unfold uniq_str. induction ps as [|y ps IH]; intros H; cbn [insert_phrase map]; [constructor; [intros [] | constructor]|].
+  cbn [map] in H. inversion H as [|? ? Hn Hr]; subst.
+  destruct (bytes_eqb (p_str y) (p_str p)) eqn:E; cbn [map].
+  - apply bytes_eqb_eq in E. rewrite <- E. exact H.
+  - constructor; [|now apply IH]. intros Hin. apply insert_phrase_strs in Hin as [Hin|Hin]; [|contradiction].
+    apply (proj2 (bytes_eqb_eq _ _)) in Hin. congruence.
+Qed.
+
+Lemma insert_phrase_in ps p q : uniq_str ps ->
+  (In q (insert_phrase ps p) <-> q = p \/ (In q ps /\ p_str q <> p_str p)).
+Proof.
+  unfold uniq_str. induction ps as [|y ps IH]; intros Hu; cbn [insert_phrase In].
+  - split; [intros [H|[]]; left; now symmetry | intros [->|[[] _]]; now left].
+  - cbn [map] in Hu. inversion Hu as [|? ? Hn Hr]; subst.
+    destruct (bytes_eqb (p_str y) (p_str p)) eqn:E; cbn [In].
+    + apply bytes_eqb_eq in E. split.
+      * intros [H|H]; [left; now symmetry|]. right. split; [now right|].
+        intros Heq. apply Hn. rewrite E, <- Heq. now apply in_map.
+      * intros [->|[[Hq|Hq] Hne]]; [now left | subst q; congruence | now right].
+    + assert (Hne : p_str y <> p_str p) by (intros Heq; apply (proj2 (bytes_eqb_eq _ _)) in Heq; congruence).
+      rewrite (IH Hr). split.
+      * intros [H|[->|[H1 H2]]]; [subst q; right; split; [now left | exact Hne] | now left | right; split; [now right | exact H2]].
+      * intros [->|[[Hq|Hq] Hq2]]; [right; now left | now left | right; right; split; assumption].
+Qed.
+
+Definition hits (k : list N) (p : phrase) (e : entry) : Prop := fst e = k /\ p_str (snd e) = p_str p.
+
+Lemma put_entry_fold k p : forall es acc, uniq_str (match acc with Some ps => ps | None => [] end) ->
+  ((exists ps, fold_left (put_entry k) es acc = Some ps /\ In p ps) <->
+   (exists es1 es2, es = es1 ++ (k, p) :: es2 /\ Forall (fun e => ~ hits k p e) es2) \/
+   ((exists ps, acc = Some ps /\ In p ps) /\ Forall (fun e => ~ hits k p e) es)).
+Proof.
+  induction es as [|e es IH]; intros acc Hu; cbn [fold_left].
+  - split.
+    + intros H. right. split; [exact H | constructor].
+    + intros [(es1 & es2 & H & _)|[H _]]; [destruct es1; discriminate | exact H].
+  - assert (Hu' : uniq_str (match put_entry k acc e with Some ps => ps | None => [] end)).
+    { unfold put_entry. destruct (keyb (fst e) k); [now apply insert_phrase_uniq | exact Hu]. }
+    rewrite (IH _ Hu'). clear IH. unfold put_entry at 1. destruct (keyb (fst e) k) eqn:Ek.
+    + apply keyb_eq in Ek. split.
+      * intros [(es1 & es2 & -> & Hf)|[(ps & Hps & Hin) Hf]].
+        -- left. exists (e :: es1), es2. split; [reflexivity | exact Hf].
+        -- inversion Hps; subst ps; clear Hps. apply (insert_phrase_in _ _ _ Hu) in Hin as [->|[Hin Hne]].
+           ++ left. exists [], es. split; [destruct e as [k0 p0]; cbn in *; now subst | exact Hf].
+           ++ right. split.
+              ** destruct acc as [ps0|]; [eauto | contradiction].
+              ** constructor; [|exact Hf]. intros [_ Hs]. now apply Hne.
+      * intros [(es1 & es2 & Heq & Hf)|[(ps & -> & Hin) Hf]].
+        -- destruct es1 as [|e1 es1]; cbn [app] in Heq; inversion Heq; subst.
+           ++ right. split; [|exact Hf]. eexists. split; [reflexivity|]. apply (insert_phrase_in _ _ _ Hu). now left.
+           ++ left. exists es1, es2. split; [reflexivity | exact Hf].
+        -- inversion Hf as [|? ? Hne Hf']; subst. right. split; [|exact Hf'].
+           eexists. split; [reflexivity|]. apply (insert_phrase_in _ _ _ Hu). right. split; [exact Hin|].
+           intros Hs. apply Hne. split; [first [exact Ek | reflexivity] | now symmetry].
+    + assert (Hk : fst e <> k) by (intros Heq; rewrite Heq, keyb_refl in Ek; discriminate). split.
+      * intros [(es1 & es2 & -> & Hf)|[Ha Hf]].
+        -- left. exists (e :: es1), es2. split; [reflexivity | exact Hf].
+        -- right. split; [exact Ha|]. constructor; [|exact Hf]. intros [Hx _]. contradiction.
+      * intros [(es1 & es2 & Heq & Hf)|[Ha Hf]].
+        -- destruct es1 as [|e1 es1]; cbn [app] in Heq; inversion Heq; subst; [cbn in Hk; contradiction|].
+           left. exists es1, es2. split; [reflexivity | exact Hf].
+        -- inversion Hf; subst. right. split; assumption.
+Qed.
+
+(* what the entry list holds under a key, entry by entry: p is held under k exactly when (k, p) is an entry of the list
+   and no LATER entry of the list has the same key and the same string (that one replaced it) *)
+Theorem phrases_for_last es k p :
+  (exists ps, phrases_for es k = Some ps /\ In p ps) <->
+  exists es1 es2, es = es1 ++ (k, p) :: es2 /\ Forall (fun e => ~ hits k p e) es2.
+Proof.
+  unfold phrases_for. rewrite (put_entry_fold k p es None); [|constructor]. split.
+  - intros [H|[(ps & Hps & _) _]]; [exact H | discriminate].
+  - intros H. now left.
+Qed.
